@@ -13,14 +13,18 @@ from ..common import Shard, failure, outcome
 
 PROPERTY = "C02"
 LEVEL = "model_checking"
-RULE = ("history = sequence of solve(text) calls on one instance; all sequences over the per-configuration "
+RULE = ("history = sequence of solve(text) calls on one instance (in configuration env_atom also 'SET:name=value' "
+        "operations on the variable table the custom atom reads); all sequences over the per-configuration "
         "alphabet up to depth D executed unpruned (deviation-ordered by number of failing calls), then BFS with "
-        "pruning on the canonical state (repr of token buffers) to depth DMAX; non-trivial = history with >=1 "
-        "failing call followed by >=1 later call")
+        "pruning on the canonical state (repr of token buffers + any other non-configuration instance attribute + "
+        "variable table) to depth DMAX; non-trivial = history ending in a solve() that has >=1 failing call or >=1 "
+        "variable-table change before it")
 ASSUMPTIONS = [
     "everything solve() reads between calls is tokens.left/right (expr is overwritten on entry, operators/steps "
     "are never written): re-checked by a guard comparing operators/steps/atom identity after every call",
     "outcome equality = same float bits / same repr for values, same exception type and message for errors",
+    "env_atom: the variable table is input of the call, not history - the reference is a fresh instance evaluated "
+    "under the table as it is at the moment of the call (reference outcomes precomputed for every reachable table)",
 ]
 
 DEPTH = dict(quick=3, thorough=4)
@@ -173,13 +177,75 @@ def _configs():
     steps4 = [dict(operators=["par"], otype=Otype.ARGS), dict(operators=["add"], otype=Otype.BINARY)]
     cfg["mutating_atom"] = (lambda: ExpressionSolver(Length, dict(ops4), [dict(s) for s in steps4]), [
         "1 m + 50 cm", "50 cm", "50 cm + 1 m", "1 m", "(50 cm) + 2 km", "2 km + (1 m + 50 cm)",
+        # the same argument text as LEFT and as RIGHT (converted in place) operand, next to different units: a result
+        # atom of an argument that is kept and handed out again has been converted by the earlier call
+        "1 m + (50 cm)", "2 km + (50 cm)", "(1 m + 50 cm) + 2 km",
         "1 m +", "1 furlong", "1 m + 1 furlong", "(50 cm", "1 m + (50 cm", "1 m + (50 cm + 1 furlong)", "(1 m)(50 cm)",
+    ])
+
+    # the documented customisation (docs/source/solver/index.rst, tests/solver/test_customisation.py): an atom that
+    # resolves names from a variable table of the caller.  The table is part of the history: "SET:name=value" operations
+    # change it between solve() calls; the oracle is a fresh instance evaluated under the CURRENT table.  Every name /
+    # argument text occurs at top level, as a parenthesised argument and as a function argument, in accepted and in
+    # rejected expressions, so that anything an instance remembers per text (atoms, argument values, whole results)
+    # is asked for again after the table changed.
+    env = dict(ENV0)
+
+    class AtomVar(AtomBase):
+        def __init__(self, value):
+            if isinstance(value, str):
+                v = value.strip()
+                if v in env:
+                    self.value = float(env[v])
+                    return
+                if v == "nil":
+                    raise KeyError("nil")
+            super().__init__(value)
+
+    _ENVS["env_atom"] = env
+    cfg["env_atom"] = (lambda: ExpressionSolver(AtomVar), [
+        "foo*bar", "SET:foo=5", "1+sin(foo)", "(foo+bar)*2", "pow(foo+bar,foo)", "SET:bar=1", "2*(foo+bar)", "foo",
+        "(foo)", "logb(foo,bar+1)+(foo+bar)", "SET:foo=3", "E:(foo+bar)*2", "bar<foo",
+        # rejected after the argument was solved / while solving it / before it
+        "(foo+bar)*nil", "pow(foo,nil)", "sin(foo)+", "(foo+bar", "nil*(foo+bar)", "foo+pow(bar)", "(foo)(bar)",
     ])
     return cfg
 
 
+ENV0 = dict(foo=3, bar=4)
+_ENVS = {}          # configuration name -> the live variable table its atoms read
 _CFG = None
 _FRESH = {}
+
+
+def _is_set(text):
+    return text.startswith("SET:")
+
+
+def _env_reset(cname):
+    if cname in _ENVS:
+        _ENVS[cname].clear()
+        _ENVS[cname].update(ENV0)
+
+
+def _env_key(cname):
+    return tuple(sorted(_ENVS[cname].items())) if cname in _ENVS else ()
+
+
+def _env_set(cname, text):
+    name, val = text[4:].split("=")
+    _ENVS[cname][name] = int(val)
+
+
+def _env_states(cname):
+    """every variable table reachable with the SET operations of the alphabet"""
+    vals = {k: {v} for k, v in ENV0.items()}
+    for c in _CFG[cname][1]:
+        if _is_set(c):
+            name, val = c[4:].split("=")
+            vals[name].add(int(val))
+    names = sorted(vals)
+    return [dict(zip(names, combo)) for combo in itertools.product(*[sorted(vals[n]) for n in names])]
 
 
 def init_worker():
@@ -199,9 +265,14 @@ def init_worker():
         _PRISTINE = _global_state()
         # reference outcomes of every call on a fresh instance, computed before any history has run
         for cname, (_, calls) in _CFG.items():
-            for c in calls:
-                _fresh(cname, c)
-                _restore_global_state()
+            for envstate in (_env_states(cname) if cname in _ENVS else [None]):
+                if envstate is not None:
+                    _ENVS[cname].clear()
+                    _ENVS[cname].update(envstate)
+                for c in calls:
+                    _fresh(cname, c)
+                    _restore_global_state()
+            _env_reset(cname)
 
 
 def _val(o):
@@ -224,14 +295,32 @@ def _arg(text):
 
 
 def _fresh(cname, text):
-    key = (cname, text)
+    """outcome of the call on a fresh instance under the CURRENT variable table of the configuration"""
+    if _is_set(text):
+        return ("ok", "set", text)
+    key = (cname, text, _env_key(cname))
     if key not in _FRESH:
         _FRESH[key] = _val(outcome(lambda: _CFG[cname][0]().solve(_arg(text))))
     return _FRESH[key]
 
 
-def _state(es):
-    return (repr(es.tokens.left), repr(es.tokens.right))
+def _call(cname, es, text):
+    """one operation of a history on the shared instance"""
+    if _is_set(text):
+        _env_set(cname, text)
+        return ("ok", "set", text)
+    return _val(outcome(lambda: es.solve(_arg(text))))
+
+
+_ADDR = __import__("re").compile(r" at 0x[0-9a-fA-F]+")
+
+
+def _state(es, cname=None):
+    """canonical state: the token buffers, every OTHER attribute the instance carries besides its configuration and the
+    expression being overwritten on entry (none on the unchanged tree), and the variable table of the configuration"""
+    extra = tuple((k, _ADDR.sub("", repr(v))[:400]) for k, v in sorted(vars(es).items())
+                  if k not in ("tokens", "operators", "steps", "expr"))
+    return (repr(es.tokens.left), repr(es.tokens.right), repr(extra), repr(_env_key(cname)))
 
 
 def _guard(es, ref):
@@ -273,7 +362,13 @@ def _run_history(cname, hist, sh, check_from=0):
     """Execute a history on one shared instance; check every transition >= check_from."""
     make, _ = _CFG[cname]
     _restore_global_state()
-    es, bad = _run_history_inner(cname, hist, sh, check_from)
+    _env_reset(cname)
+    try:
+        es, bad = _run_history_inner(cname, hist, sh, check_from)
+        es_state = _state(es, cname)
+    finally:
+        _env_reset(cname)
+    es = _Done(es, es_state)
     now = _global_state()
     if now != _PRISTINE and bad is None:
         diff = [b for a, b in zip(_PRISTINE, now) if a != b] if len(now) == len(_PRISTINE) else ["attributes added/removed"]
@@ -283,20 +378,44 @@ def _run_history(cname, hist, sh, check_from=0):
     return es, bad
 
 
+class _Done:
+    """the instance after a history together with its canonical state (taken before the variable table was reset)"""
+    def __init__(self, es, state):
+        self.es, self.state = es, state
+
+
+def _hist_tags(cname, hist, k):
+    """features of the history before call k (evaluated step by step under the table each call saw)"""
+    tags = []
+    keep = dict(_ENVS[cname]) if cname in _ENVS else None
+    _env_reset(cname)
+    failing = False
+    for h in hist[:k]:
+        if _is_set(h):
+            _env_set(cname, h)
+        elif _fresh(cname, h)[0] == "err":
+            failing = True
+    if keep is not None:
+        _ENVS[cname].clear()
+        _ENVS[cname].update(keep)
+    tags.append("after-failing-call" if failing else "after-successful-calls-only")
+    if any(_is_set(h) for h in hist[:k]):
+        tags.append("variable-table-changed-between-calls")
+    return tags
+
+
 def _run_history_inner(cname, hist, sh, check_from=0):
     make, _ = _CFG[cname]
     es = make()
     ref = (list(es.operators.items()), repr(es.steps), es.tokens.atom)
     bad = None
     for k, text in enumerate(hist):
-        got = _val(outcome(lambda: es.solve(_arg(text))))
+        got = _call(cname, es, text)
         if k >= check_from:
             exp = _fresh(cname, text)
             if got != exp and bad is None:
                 bad = failure("history", dict(config=cname, history=list(hist[:k + 1])), exp, got,
-                              tags=["after-failing-call"] if any(_fresh(cname, h)[0] == "err" for h in hist[:k])
-                              else ["after-successful-calls-only"],
-                              behaviour="stale-state")
+                              tags=_hist_tags(cname, hist, k), behaviour="stale-state")
             if not _guard(es, ref) and bad is None:
                 bad = failure("config-mutated", dict(config=cname, history=list(hist[:k + 1])),
                               "operators/steps/atom unchanged", "changed", behaviour="config-mutated")
@@ -311,11 +430,12 @@ def _soak(cname, n, sh, stop_at=None):
     many successful calls - counters, budgets, caches - is invisible to depth-3 histories)"""
     make, calls = _CFG[cname]
     _restore_global_state()
+    _env_reset(cname)
     es = make()
     bad = None
     for i in range(n if stop_at is None else stop_at + 1):
         text = calls[i % len(calls)]
-        got = _val(outcome(lambda: es.solve(_arg(text))))
+        got = _call(cname, es, text)
         exp = _fresh(cname, text)
         if got != exp:
             bad = failure("soak", dict(config=cname, soak_index=i, call=text), exp, got,
@@ -326,6 +446,7 @@ def _soak(cname, n, sh, stop_at=None):
                       "process-wide solver state unchanged", "changed", tags=["process-wide-state", "long-history"],
                       behaviour="global-state-changed")
     _restore_global_state()
+    _env_reset(cname)
     return bad
 
 
@@ -370,11 +491,14 @@ def run_shard(desc):
                 sh.transitions += 1
                 sh.traces += 1
                 sh.max_depth = max(sh.max_depth, length)
-                sh.add_to_set("states", (cname,) + _state(es))
+                sh.add_to_set("states", (cname,) + es.state)
                 fails = sum(nfail[c] for c in hist[:-1])
-                if fails and length >= 2:
+                envchg = sum(1 for c in hist[:-1] if _is_set(c))
+                if (fails or envchg) and length >= 2 and not _is_set(hist[-1]):
                     sh.nontrivial += 1
                 sh.count("faults_in_prefix=%d" % fails)
+                if cname in _ENVS:
+                    sh.count("table_changes_in_prefix=%d" % envchg)
                 sh.add_to_set("outcomes", (cname,) + _fresh(cname, hist[-1]))
                 if bad:
                     sh.fail(bad)
@@ -382,7 +506,7 @@ def run_shard(desc):
                     sh.sample(dict(config=cname, history=list(hist)))
     else:
         # pruned BFS: a state is represented by the shortest history reaching it
-        seen = {(cname, "[]", "[]"): ()}
+        seen = {(cname, "[]", "[]", "()", repr(_env_key(cname))): ()}
         frontier = [()]
         d = 0
         while frontier and d < depth:
@@ -397,7 +521,7 @@ def run_shard(desc):
                     sh.evaluations += 1
                     if bad:
                         sh.fail(bad)
-                    st = (cname,) + _state(es)
+                    st = (cname,) + es.state
                     sh.add_to_set("states", st)
                     if st not in seen:
                         seen[st] = h
@@ -425,17 +549,32 @@ def finish(total, tier, seed):
     nerr = sum(1 for o in outs if o[1] == "err")
     if nerr < 10 or len(outs) - nerr < 10:
         raise HarnessError("vacuous alphabet: outcomes %d errors %d" % (len(outs), nerr))
+    # the variable table must really be read: most solve() calls of env_atom answer differently under different tables
+    env_dep = {}
+    for cname in _ENVS:
+        solves = [c for c in _CFG[cname][1] if not _is_set(c)]
+        env_dep[cname] = sum(1 for c in solves
+                             if len({v for (cn, t, e), v in _FRESH.items() if cn == cname and t == c}) > 1)
+        if env_dep[cname] < 8 or len(_env_states(cname)) < 4:
+            raise HarnessError("vacuous variable table in %s: %d table-dependent calls" % (cname, env_dep[cname]))
     return dict(states=len(states), distinct_outcomes=len(outs), failing_calls_in_alphabet=nerr,
+                variable_tables={c: len(_env_states(c)) for c in _ENVS}, table_dependent_calls=env_dep,
+                table_operations={c: [t for t in _CFG[c][1] if _is_set(t)] for c in _ENVS},
                 depth_unpruned=DEPTH[tier], depth_pruned=DMAX[tier],
                 configurations=sorted(_CFG), deviation_bound_completed=DEPTH[tier] - 1,
                 alphabet_sizes={k: len(v[1]) for k, v in _CFG.items()})
 
 MANIFEST = dict(
     text="Explicit-state exploration of the real ExpressionSolver instance: every sequence of solve() calls (valid and "
-         "failing at every stage/token position) up to depth 3 (quick) / 4 (thorough) in 5 configurations is executed "
-         "on one shared instance and every transition is compared with a fresh instance; then pruned BFS to depth 6/8. "
+         "failing at every stage/token position) up to depth 3 (quick) / 4 (thorough) in 9 configurations is executed "
+         "on one shared instance and every transition is compared with a fresh instance; then pruned BFS to depth 6/8 "
+         "and one 4000/40000-call soak per configuration. Configurations include an atom whose operators convert "
+         "their operand in place (the same argument text as left and right operand next to different units) and the "
+         "documented name-resolving atom whose variable table is changed between calls by operations of the alphabet "
+         "(every name / argument text at top level, in parentheses and as function argument, in accepted and rejected "
+         "expressions; reference = fresh instance under the current table). "
          "Coverage statement: no history within the bound changes a later outcome.",
-    note="Alphabet of ~15-28 calls per configuration; trusted: Python semantics, outcome canonicalisation (float bits, "
-         "exception type+message). Histories beyond the depth bound rely on the small-scope hypothesis.",
+    note="Alphabet of ~15-50 operations per configuration; trusted: Python semantics, outcome canonicalisation (float "
+         "bits, exception type+message). Histories beyond the depth bound rely on the small-scope hypothesis.",
     technique="explicit-state BFS over call/fault histories on the real object, differential oracle vs fresh instance",
 )
